@@ -61,6 +61,13 @@ func c07Routes() []c07Route {
 			mk("nested-ternary:"+f, "{{ (true ? v|raw|raw : 'x'|upper|lower)|"+f+"|raw }}", nil, "", ""),
 			mk("nested-array:"+f, "{{ [v|raw|raw, 'q'|upper|lower]|first|"+f+" }}", nil, "", ""),
 			mk("nested-both:"+f, "{{ ('a'|upper|lower ~ 'b'|upper|lower) ~ (v|raw|raw|"+f+") ~ ('c'|upper|lower|"+f+") }}", nil, "ab", "c"),
+			// the filter called with an argument (Twig's escaping strategy): whatever the argument, the result is never less
+			// than HTML escaping for these names
+			mk("arg-html:"+f, "{{ v|"+f+"('html') }}", nil, "", ""),
+			mk("arg-html-attr:"+f, "{{ v|"+f+"('html_attr') }}", nil, "", ""),
+			mk("arg-upper:"+f, "{{ v|"+f+"('HTML') }}", nil, "", ""),
+			mk("arg-undefined:"+f, "{{ v|"+f+"(nosuchstrategy) }}", nil, "", ""),
+			mk("arg-omitted-param:"+f, "{% macro m(x, s) %}{{ x|"+f+"(s) }}{% endmacro %}{{ _self.m(v) }}", nil, "", ""),
 			// the same apply block entered again while it is being rendered (recursive macro, self-including template)
 			mk("apply-reentrant-macro:"+f, "{% macro rec(x, n, y) %}{% apply "+f+" %}[{{ x }}{% if n > 0 %}{{ _self.rec('i', n - 1, 'j') }}{% endif %}{{ y }}]{% endapply %}{% endmacro %}{{ _self.rec(v, 1, 'z') }}", nil, "[", "[ij]z]"),
 			mk("apply-reentrant-include:"+f, "{% include 'inc' with {'x': v, 'n': 1, 'y': 'z'} %}",
@@ -435,10 +442,15 @@ func runC07(e *Env) error {
 		"multi-byte and invalid UTF-8, 1 MiB strings, every Unicode scalar value (quick: 1 in 16 blocks of 4096 plus the boundaries; thorough: all 1 112 064), non-string values against html.EscapeString(toString(v)); " +
 		"the nil-environment fallback (two routes × two names) against Escape.escFallback on the same single bytes, pairs, code points and random strings. " +
 		"non-trivial = input contains one of < > & \" ' or is not valid UTF-8; distinct by input"
+	// another engine of the same process replaces e / escape / raw by filters of its own BEFORE the engines under
+	// test are created (and once more after): filter tables are per engine, a stock engine keeps escaping
+	c07OtherEngineOverrides()
 	engines, err := c07Build()
 	if err != nil {
 		return err
 	}
+	c07OtherEngineOverrides()
+	r.Hit("other-engine-overrides-escape")
 	// FACT: the name tables
 	if e.Model != nil {
 		resp, err := e.Model.Call(map[string]any{"op": "escape_names"})
@@ -687,4 +699,16 @@ func c07MustEngine(tpls map[string]string) *twig.Engine {
 		panic(err)
 	}
 	return e
+}
+
+func c07OtherEngineOverrides() {
+	guarded(func() (string, error) {
+		x := twig.New()
+		id := func(v interface{}, a ...interface{}) (interface{}, error) { return v, nil }
+		for _, n := range []string{"e", "escape", "raw", "upper"} {
+			x.AddFilter(n, id)
+		}
+		x.RegisterString("t", "{{ v|e }}{{ v|escape }}{% apply escape %}{{ v }}{% endapply %}")
+		return x.Render("t", map[string]interface{}{"v": "<&>"})
+	})
 }
